@@ -29,6 +29,135 @@ pub struct PeekCase {
     /// while the next batch asks for slots, and is submitted at the end
     #[serde(default)]
     pub partial: bool,
+    /// the ring has a kernel submission thread (SQPOLL, idle time 5 ms) and the caller follows the protocol for
+    /// such rings: after every flush one look at `needs_wakeup()`, and an enter with SQ_WAKEUP if it says so.
+    /// After the batches the caller stays quiet for 40 ms (the thread goes to sleep, completions that did not
+    /// fit are still held back by the kernel), submits one more operation the same way, and only then reaps
+    #[serde(default)]
+    pub sqpoll: bool,
+}
+
+fn sqpoll_supported() -> bool {
+    use std::sync::OnceLock;
+    static S: OnceLock<bool> = OnceLock::new();
+    *S.get_or_init(|| matches!(catch(|| setup_io_uring(2, IoUringParamFlags::IORING_SETUP_SQPOLL, 0, 5).is_ok()), Ok(true)))
+}
+
+fn run_sqpoll(c: &PeekCase) -> CaseResult {
+    use std::time::{Duration, Instant};
+    let mut rep = CaseReport::new();
+    if !sqpoll_supported() {
+        return Ok(rep);
+    }
+    let entries = c.entries.clamp(1, 16);
+    let mut ring = match catch(|| setup_io_uring(entries, IoUringParamFlags::IORING_SETUP_SQPOLL, 0, 5)) {
+        Ok(Ok(r)) => r,
+        _ => return Ok(rep),
+    };
+    let sq = entries.next_power_of_two();
+    let fd = ring.fd;
+    let bad = sys::bad_fd(3);
+    let batches = c.batches.clamp(1, 5);
+    let mut expected: Vec<(u64, i32)> = Vec::new();
+    let mut ud = 0xa100u64;
+    let t0 = Instant::now();
+    let mut late_wake = false;
+    let wake = |ring: &rusl::platform::IoUring| -> Result<bool, Failure> {
+        // store(tail) ; full barrier ; load(flags) - the barrier is the caller's job
+        core::sync::atomic::fence(core::sync::atomic::Ordering::SeqCst);
+        match catch(|| ring.needs_wakeup()) {
+            Ok(true) => match catch(|| io_uring_enter(fd, 0, 0, IoUringEnterFlags::IORING_ENTER_SQ_WAKEUP)) {
+                Ok(Ok(_)) => Ok(true),
+                Ok(Err(e)) => Err(Failure::new("peek|io_uring_enter|error", format!("io_uring_enter(0, 0, SQ_WAKEUP) failed: {e}"))),
+                Err((loc, msg)) => Err(Failure::new(format!("peek|panic|{loc}"), msg)),
+            },
+            Ok(false) => Ok(false),
+            Err((loc, msg)) => Err(Failure::new(format!("peek|panic|{loc}"), msg)),
+        }
+    };
+    for b in 0..=batches {
+        let late = b == batches;
+        if late {
+            std::thread::sleep(Duration::from_millis(40));
+        }
+        for _ in 0..if late { 1 } else { sq } {
+            // the submission thread frees slots as it consumes them
+            let slot = loop {
+                match catch(|| ring.get_next_sqe_slot()) {
+                    Ok(Some(s)) => break Some(s),
+                    Ok(None) => {
+                        if t0.elapsed() > Duration::from_secs(5) {
+                            break None;
+                        }
+                        wake(&ring)?;
+                        std::thread::yield_now();
+                    }
+                    Err((loc, msg)) => return Err(Failure::new(format!("peek|panic|{loc}"), msg)),
+                }
+            };
+            let Some(slot) = slot else {
+                // no slot for seconds: not what this case is about
+                let _ = catch(move || drop(ring));
+                return Ok(rep);
+            };
+            let (sqe, want) = if c.op == 1 { (RawSqe { opcode: sys::OP_CLOSE, fd: bad, user_data: ud, ..RawSqe::default() }, -libc::EBADF) } else { (RawSqe { opcode: sys::OP_NOP, user_data: ud, ..RawSqe::default() }, 0) };
+            unsafe { slot.cast::<RawSqe>().write(sqe) };
+            expected.push((ud, want));
+            ud += 1;
+        }
+        if let Err((loc, msg)) = catch(|| ring.flush_submission_queue()) {
+            return Err(Failure::new(format!("peek|panic|{loc}"), msg));
+        }
+        let woke = wake(&ring)?;
+        late_wake |= late && woke;
+    }
+    let mut got: Vec<(u64, i32)> = Vec::new();
+    let t1 = Instant::now();
+    let mut idle = 0u32;
+    while got.len() < expected.len() && t1.elapsed() < Duration::from_secs(6) {
+        match catch(|| io_uring_enter(fd, 0, 0, IoUringEnterFlags::IORING_ENTER_GETEVENTS)) {
+            Ok(Ok(_)) => {}
+            Ok(Err(e)) if matches!(e.code, Some(rusl::error::Errno::EINTR) | Some(rusl::error::Errno::EBUSY) | Some(rusl::error::Errno::EAGAIN)) => {}
+            Ok(Err(e)) => return Err(Failure::new("peek|io_uring_enter|error", format!("io_uring_enter(0, 0, GETEVENTS) failed: {e}"))),
+            Err((loc, msg)) => return Err(Failure::new(format!("peek|panic|{loc}"), msg)),
+        }
+        let before = got.len();
+        while let Some(cqe) = ring.get_next_cqe() {
+            got.push((cqe.0.user_data, cqe.0.res));
+            if got.len() > expected.len() + 8 {
+                break;
+            }
+        }
+        if got.len() == before {
+            idle += 1;
+            std::thread::sleep(Duration::from_micros(if idle < 50 { 100 } else { 2000 }));
+        }
+    }
+    let _ = catch(move || drop(ring));
+    let overflowed = expected.len() - 1 > 2 * sq as usize;
+    let what = format!("SQPOLL ring of {entries} entries ({sq} submission / {} completion slots, idle 5 ms), {batches} batches of {sq} {} handed over with flush + needs_wakeup + enter(SQ_WAKEUP), nothing reaped, 40 ms of quiet, one more operation handed over the same way, then reaped with io_uring_enter(0, 0, GETEVENTS) + get_next_cqe", 2 * sq, ["NOPs", "closes of an unopened descriptor"][c.op.min(1) as usize]);
+    let mut g = got.clone();
+    g.sort();
+    let mut e = expected.clone();
+    e.sort();
+    if g != e {
+        let missing: Vec<u64> = e.iter().filter(|x| !g.iter().any(|y| y.0 == x.0)).map(|x| x.0).collect();
+        if !missing.is_empty() {
+            let last = missing.contains(&(ud - 1));
+            return Err(Failure::new(format!("peek|missing-cqe|submission thread {}", if last { "never picked up the late operation" } else { "lost operations" }), format!("{what}: {} of {} completions never appeared within 6 s (first missing user_data {:#x}; the late operation is {:#x})", missing.len(), expected.len(), missing[0], ud - 1)));
+        }
+        if let Some(d) = g.windows(2).find(|w| w[0].0 == w[1].0).map(|w| w[0].0) {
+            return Err(Failure::new("peek|duplicate-cqe", format!("{what}: user_data {d:#x} completed twice")));
+        }
+        let (a, b) = g.iter().zip(e.iter()).find(|(a, b)| a != b).unwrap();
+        return Err(Failure::new("peek|res-mismatch", format!("{what}: user_data {:#x} completed with {}, the direct call gives {}", a.0, a.1, b.1)));
+    }
+    rep.nontrivial = true;
+    rep.class("sqpoll-ring-driven-by-the-wakeup-protocol");
+    rep.class_if(late_wake, "late-operation-needed-a-wakeup");
+    rep.class_if(late_wake && overflowed, "late-operation-needed-a-wakeup-while-completions-were-held-back");
+    rep.class("judged");
+    Ok(rep)
 }
 
 fn defer_supported() -> bool {
@@ -38,6 +167,9 @@ fn defer_supported() -> bool {
 }
 
 pub fn run_case(c: &PeekCase) -> CaseResult {
+    if c.sqpoll {
+        return run_sqpoll(c);
+    }
     let mut rep = CaseReport::new();
     let defer = c.defer && defer_supported();
     let flags = if defer { IoUringParamFlags::IORING_SETUP_SINGLE_ISSUER | IoUringParamFlags::IORING_SETUP_DEFER_TASKRUN } else { IoUringParamFlags::empty() };
@@ -212,9 +344,9 @@ pub fn run(ctx: &Ctx) {
     for entries in [1u32, 2, 3, 4, 8] {
         for batches in [1u8, 2, 3, 4] {
             for op in [0u8, 1] {
-                for (defer, partial) in [(false, false), (true, false), (false, true)] {
+                for (defer, partial, sqpoll) in [(false, false, false), (true, false, false), (false, true, false), (false, false, true)] {
                     if k % ctx.nworkers == ctx.worker {
-                        let c = PeekCase { entries, batches, op, defer, partial };
+                        let c = PeekCase { entries, batches, op, defer, partial, sqpoll };
                         if !ctx.run_one("peek", &c, || run_case(&c)) {
                             return;
                         }
